@@ -5,3 +5,13 @@ chk("C01", "exploration", "runtime monitoring: oracle over CSV balance reports +
     "Every Delta cell of `knut balance --csv` of generated accepted journals is checked to be exactly zero over a drawn matrix of window/interval/last/diff/close/valuation/sort/mapping/remap flags, and every transaction seen by the tail monitor hook nets to zero; held on the executions listed in the evidence, nothing more.",
     "Trusts the journal generator to emit accepted journals (rejected runs are counted as not_judged), encoding/csv, and that the verif-tag hooks do not alter behaviour.",
     "DESIGN.md §4 C01")
+
+chk("C02", "exploration", "runtime monitoring: cell-by-cell comparison of real balance reports with an independent big.Rat reference ledger",
+    "Each unvalued report of a generated accepted journal under drawn window/interval/last/diff/close/filter/mapping/remap flags is parsed (tree from the text table, exact numbers from CSV) and every cell, the row set, the totals and Delta are compared with an independently written rational-arithmetic ledger; held on the (journal, flag) pairs listed in the evidence.",
+    "Trusts the reference ledger's reading of the README for --close/-m/--remap, the table readers, and math/big. Journals with accruals are not used here (C09/C10 cover them).",
+    "DESIGN.md §4 C02")
+
+chk("C04", "exploration", "runtime monitoring: exit status and diagnostics of the real binary against an independent lifecycle automaton (random + bounded-exhaustive multisets)",
+    "The verdict of `knut check` (and of print/balance) on generated valid journals, single-fault mutants and an enumerated family of small journals is compared with an independently written account-lifecycle automaton; for single planted faults the diagnostic must name date and account of the first offending directive. The thorough tier enumerates all 118755 multisets of <=5 directives over a 24-symbol alphabet.",
+    "Trusts the automaton's reading of the statement (evaluation order prices, opens, transactions, assertions, closes; closing forgets positions). No accruals; assertions only on A/L accounts.",
+    "DESIGN.md §4 C04")
